@@ -71,7 +71,8 @@ def c02(tier):
     return writer.run_writer_check("C02", tier, [
         dict(mc=(W, wcfg("conform", q)), max_progs=3000 if q else 60000, mult=1 if q else 2),
         dict(mc=(W, wcfg("prepared", q)), max_progs=500 if q else 10000),
-    ], assumptions=BASE_ASSUME)
+    ], assumptions=BASE_ASSUME + ["the wire tap hook (verifWire) reports exactly the bytes of successful transport writes"],
+        extra=lambda: writer.suite_wire("C02", tier))
 
 
 def c09(tier):
